@@ -83,7 +83,13 @@ func RunBatch(env DriveEnv, b Batch, idx int) BatchResult {
 	if timeout <= 0 {
 		timeout = 600
 	}
-	cmd := exec.Command(bin, "child", "batch.json", "report.json")
+	if w := os.Getenv("VERIF_WRAP"); w != "" && len(b.Wrap) == 0 {
+		// exploration aid: run every child under a wrapper, e.g.
+		// VERIF_WRAP="strace -f -qq -o /dev/null -e trace=write -e inject=write:delay_exit=2000"
+		b.Wrap = strings.Fields(w)
+	}
+	argv := append(append([]string{}, b.Wrap...), bin, "child", "batch.json", "report.json")
+	cmd := exec.Command(argv[0], argv[1:]...)
 	cmd.Dir = dir
 	cmd.Env = childEnv(b, dir)
 	so, _ := os.Create(filepath.Join(dir, "stdout.txt"))
